@@ -1596,3 +1596,17 @@ Proof.
   destruct (cparse_program vx_fs [T "root.frugal"]) as [[n f incs]| | |]; try contradiction.
   destruct H1 as [A B]. auto.
 Qed.
+
+(** what validation still does not see: constants which refer to each other in a circle
+    (const i32 a = b, const i32 b = a) conform -- a reference is judged by the declared type of
+    the constant it names -- and are accepted; the generators write the references out as they
+    are (Go: initialization cycle).  Finding C11-K15. *)
+Definition w_const_cycle : frugal :=
+  mkfrugal [] [] []
+    [mkconst None (T "a") (ty0 "i32") (CIdent (T "b")) []; mkconst None (T "b") (ty0 "i32") (CIdent (T "a")) []]
+    [] [] [] [] [] [].
+Lemma constant_cycle_accepted_refuted :
+  cvalidate 10 w_const_cycle [] = ROk
+  /\ c_value (nth 0 (fr_constants w_const_cycle) (mkconst None [] (ty0 "i32") COther [])) = CIdent (T "b")
+  /\ c_value (nth 1 (fr_constants w_const_cycle) (mkconst None [] (ty0 "i32") COther [])) = CIdent (T "a").
+Proof. repeat split; vm_compute; reflexivity. Qed.
